@@ -9,6 +9,24 @@ CLAIMS = {
  "C01": dict(ref="5/C01",
    text="For every byte string within the stated length bounds (all 256 byte values for n<=3 quick / n<=4 thorough, a 24-symbol JSON-critical alphabet beyond) and all four AllowInvalidUTF8/AllowDuplicateNames settings, the solver shows that Value.IsValid, a ReadToken loop and a ReadValue loop accept exactly what an independent RFC 8259/7493 recogniser accepts (value counts and io.EOF-only-at-boundary included); every explored path is justified by a solver feasibility verdict and the path set is certified to partition the input space (sum of model counts = 256^n).",
    note="Bounded: inputs longer than the bound, depth-limit behaviour and Unmarshal-into-any are checked by other obligations or are outside this claim. Trusted: gosym's Go semantics (validated each run by replaying sampled solver models natively), z3, the zzspec recogniser."),
+ "C02": dict(ref="5/C02",
+   text="The mechanisms that make Marshal's output well-formed are decided symbolically: (i) the untyped marshal fast path on trees with symbolic strings, keys and bools under AllowInvalidUTF8 x AllowDuplicateNames x Deterministic (with solver-chosen map iteration orders): success implies exactly one value valid under the effective options (two keys mangling to U+FFFD must be an error), an error only for ill-formed UTF-8, the output denotes the tree; (ii) the Encoder state machine that polices everything user code writes (C06).",
+   note="Bounded tree shapes and 1-2 byte strings; typed values with adversarial user marshalers are covered by the C17 harnesses once registered. Trusted: gosym semantics incl. the reflect environment (replay-validated), z3, zzspec."),
+ "C03": dict(ref="5/C03",
+   text="The untyped unmarshal fast path (unmarshalValueAny + trailing-data check over a pooled decoder) returns, for every byte string within the bound and templates with symbolic holes, exactly the reference tree: shapes, strings by RFC 8259 unescaping, number literals handed unchanged to strconv.ParseFloat (uninterpreted) with its error propagated, array order, exactly the members; rejected iff the reference grammar rejects. makeString is shown correct from an ARBITRARY cache state (one inductive step).",
+   note="Correct rounding of numbers is strconv's (uninterpreted function here). The generic map/slice arshaler routes and UnmarshalRead are outside this claim."),
+ "C08": dict(ref="5/C08",
+   text="Duplicate member names - spelled differently through escapes, at depth 0/1 and inside arrays, or colliding after U+FFFD substitution - are rejected on Value.IsValid, the ReadToken loop, the ReadValue loop and the untyped unmarshal fast path exactly when the reference (names compared after unescaping) says so, for AllowDuplicateNames x AllowInvalidUTF8; the struct-field bit set (uintSet) behaves as a mathematical set from an arbitrary state (z3 and cvc5 agree).",
+   note="Struct targets with symbolic member names are exercised by the C15 harnesses; map targets and embedded fallbacks are outside."),
+ "C09": dict(ref="5/C09",
+   text="Differential symbolic execution of v1.Valid/Compact/Indent/HTMLEscape and the source of the standard library's encoding/json on the same symbolic bytes: both succeed or fail together and produce identical bytes, for all byte strings up to the bound, alphabet-restricted longer strings, skeletons with holes, and six prefix/indent pairs.",
+   note="Only the reflection-free entry points of package v1; error text and offsets are not compared."),
+ "C14": dict(ref="5/C14",
+   text="On a real Go struct type holding every merge-capable kind (nested struct, pointer, map, slice, array, interface, scalar) the real Unmarshal is executed symbolically twice: j1 populates all fields, j2 mentions one member as a value, as null or partially; the final Go value must equal the value prescribed by the documented merge rules for all symbolic digits, letters and keys (equal and distinct keys both occur): 21 obligations explored completely.",
+   note="One type graph, two texts; the law is conditional on acceptance (a shorter JSON array or a string into an interface holding a map are legitimately refused). reflect is the engine's go/types-backed environment model; the harness replays natively verbatim."),
+ "C16": dict(ref="5/C16",
+   text="After every decoder call (token path, value path, mixed) and every encoder call within the bound, InputOffset/OutputOffset, StackDepth, every StackIndex and StackPointer equal an independent Tracker over the bytes consumed/produced; for every rejected input the bytes before ByteOffset are a viable prefix, the offending token starts at or contains the offset, and JSONPointer designates the innermost container or a direct child (the duplicated member for ErrDuplicateName); RFC 6901 Pointer methods satisfy their inverse/containment laws on all short pointers.",
+   note="SemanticError positions (reflection-driven conversion errors) are outside this claim."),
  "C05": dict(ref="5/C05",
    text="A decoder fed through a reader whose every Read size is chosen by the solver (tiny buffer capacities 2..8 and the real 64-byte buffer, empty reads, EOF delivered with data) is compared call by call with a decoder over the whole slice, for all sequences of ReadToken/ReadValue/SkipValue/PeekKind within the bound and symbolic input bytes (full range and templates): same results, error class/offset/pointer, InputOffset, StackDepth, StackIndex, StackPointer; returned values equal their input span; reader bytes = first InputOffset bytes ++ UnreadBuffer. A second family injects one transient read error at a solver-chosen Read: the pending ReadToken/ReadValue returns it, state is unchanged, the retry continues identically.",
    note="Bounded: inputs of 2-3 fully symbolic bytes and templates of up to 18 bytes with symbolic holes, 2-3 calls, the first 2-9 Read sizes symbolic then 1-byte reads. UnmarshalRead/UnmarshalDecode for typed targets are reflection-driven and outside this claim. Trusted: gosym semantics (replay-validated), z3."),
@@ -26,9 +44,7 @@ CLAIMS = {
    note="Full 64-bit width, no bound on history length for the flag algebra (inductive step). Behavioural irrelevance of options for typed Marshal/Unmarshal is outside the claim."),
 }
 
-NA = {
- "C14": "merge semantics live entirely in reflection-driven arshalers; encoding them needs a symbolic model of reflect's mutable value graph, which is a re-implementation rather than an environment contract (DESIGN 5/C14)",
-}
+NA = {}
 
 def main():
     props = [json.loads(l) for l in open('properties.jsonl')]
